@@ -45,7 +45,7 @@ def validate(instance, attrib, new_value):
         return new_value
 
     v = attrib.validator
-    if not v:
+    if not (callable(v) or v):
         return new_value
 
     v(instance, attrib, new_value)
@@ -61,7 +61,7 @@ def convert(instance, attrib, new_value):
     .. versionadded:: 20.1.0
     """
     c = attrib.converter
-    if c:
+    if callable(c) or c:
         # This can be removed once we drop 3.8 and use attrs.Converter instead.
         from ._make import Converter
 
